@@ -73,6 +73,24 @@ var roots = [][]cop{
 	{{K: "put", A: 0, V: 1}, {K: "put", A: 1, V: 1}},
 }
 
+// baseRoots: the short roots every workload family starts from. Root 3 is an
+// aged cache (70000 accesses: access stamps beyond 2^15 and 2^16), used by a
+// small family only since every execution replays its root.
+const baseRoots = 3
+
+func init() {
+	aged := []cop{{K: "put", A: 0, V: 1}, {K: "put", A: 1, V: 1}}
+	// key 1 last touched at tick ~30000, key 0 at ~70000: their order flips
+	// under a 16-bit stamp, signed or unsigned
+	for i := 0; i < 70000; i++ {
+		if i == 30000 {
+			aged = append(aged, cop{K: "get", A: 1})
+		}
+		aged = append(aged, cop{K: "get", A: 0})
+	}
+	roots = append(roots, aged)
+}
+
 type ev struct{ K, V int }
 
 type result struct {
@@ -454,7 +472,7 @@ func workloads(r *mc.Run) (ws []workload, bound []int) {
 			pairs6 = append(pairs6, []cop{x, y})
 		}
 	}
-	for root := range roots {
+	for root := 0; root < baseRoots; root++ {
 		for _, a := range pairs6 {
 			for _, b := range pairs6 {
 				add(workload{root, [][]cop{a, b}}, mc.Pick(r, 3, 4))
@@ -462,7 +480,7 @@ func workloads(r *mc.Run) (ws []workload, bound []int) {
 		}
 	}
 	// 3 threads x 1 op, unbounded schedules, all roots
-	for root := range roots {
+	for root := 0; root < baseRoots; root++ {
 		for i := 0; i < n; i++ {
 			for j := 0; j < n; j++ {
 				for k := 0; k < n; k++ {
@@ -477,9 +495,22 @@ func workloads(r *mc.Run) (ws []workload, bound []int) {
 			}
 		}
 	}
+	// an aged cache: 2 threads x 1 op, unbounded, and 2 x 2 over the small alphabet
+	for i := 0; i < n; i++ {
+		for j := 0; j < n; j++ {
+			add(workload{baseRoots, [][]cop{{alphabet[i]}, {alphabet[j]}}}, -1)
+		}
+	}
+	if !r.Quick() {
+		for _, a := range pairs6 {
+			for _, b := range pairs6 {
+				add(workload{baseRoots, [][]cop{a, b}}, 2)
+			}
+		}
+	}
 	// 4 threads x 1 op (the property speaks of 2-4 goroutines)
 	four := alphabet6
-	for root := range roots {
+	for root := 0; root < baseRoots; root++ {
 		for _, a := range four {
 			for _, b := range four {
 				for _, c := range four {
@@ -493,7 +524,7 @@ func workloads(r *mc.Run) (ws []workload, bound []int) {
 	if !r.Quick() {
 		m := len(alphabet6)
 		// 2 threads x 3 ops and 3 threads x 2 ops over the small alphabet
-		for root := range roots {
+		for root := 0; root < baseRoots; root++ {
 			var triples, dbl [][]cop
 			for i := 0; i < m; i++ {
 				for j := 0; j < m; j++ {
@@ -531,7 +562,7 @@ func freeRunning(spec string) {
 	runtime.GOMAXPROCS(procs)
 	n := len(alphabet)
 	for rep := 0; rep < reps; rep++ {
-		for root := range roots {
+		for root := 0; root < baseRoots; root++ {
 			var nilSched *mc.Sched
 			conf := cache.LRU[int, int]().WithSize(func(v int) int64 { return int64(v) }).OnEvict(func(k, v int) {})
 			conf = wrapStore(conf, func(in cache.Store[int, int]) cache.Store[int, int] { return seamStore{in, &nilSched} })
@@ -550,6 +581,29 @@ func freeRunning(spec string) {
 				}(t)
 			}
 			wg.Wait()
+			// Single-class phases: between two calls of the same class there is
+			// no call of another class whose locking would order them for the
+			// race detector (observers that share a read lock, accessors that
+			// update recency), so an unsynchronised write inside them is
+			// reported whenever two goroutines make them at all.
+			for _, class := range [][]cop{
+				{{K: "has", A: 0}, {K: "has", A: 1}, {K: "has", A: 2}, {K: "len"}, {K: "size"}},
+				{{K: "has", A: 0}, {K: "has", A: 1}},
+				{{K: "get", A: 0}, {K: "get", A: 1}, {K: "get", A: 2}},
+				{{K: "len"}, {K: "size"}, {K: "get", A: 1}},
+			} {
+				for t := 0; t < 4; t++ {
+					wg.Add(1)
+					go func(t int) {
+						defer wg.Done()
+						for i := 0; i < 24; i++ {
+							doOp(c, class[(i+t)%len(class)])
+						}
+					}(t)
+				}
+				wg.Wait()
+				doOp(c, cop{K: "put", A: rep % nkeys, V: 1}) // a different present set for the next class
+			}
 		}
 	}
 	fmt.Println("free-run done")
